@@ -545,6 +545,23 @@ pub fn run(sim: &mut Sim) -> Outcome {
                     break;
                 }
             }
+            // "served within one round of the others": while X (always ready) waits, no other
+            // source is served twice
+            let mut since: Vec<usize> = vec![];
+            for (j, o) in m.outputs[..=last].iter().enumerate() {
+                if o.0 == x {
+                    since.clear();
+                } else if since.contains(&o.0) {
+                    let seq: Vec<usize> = m.outputs.iter().map(|o| o.0).collect();
+                    m.viol(
+                        "source_served_twice_before_always_ready_source",
+                        format!("source S{} was served twice (second time at output {j}) while always-ready source S{x} was waiting (output order by source: {seq:?})", o.0),
+                    );
+                    break;
+                } else {
+                    since.push(o.0);
+                }
+            }
             sim.probe("fairness_checked_on_always_ready_source");
         }
     }
